@@ -953,6 +953,86 @@ fn fwd_one(rng: &mut rand::rngs::StdRng, idx: usize, dir: &str) -> Vec<Value> {
 // with sampling on: no more than the reservoir size, only values recorded in that cycle, all of them when the
 // cycle recorded no more than the reservoir size, rate = sent / recorded.
 
+/// Look-up, increment, drop: several threads use `register_counter(key).increment(1)` (what `counter!(..).increment(1)` does)
+/// without keeping handles, with quiet gaps long enough for a key to go idle for several flushes, while flushes run back to
+/// back. Schedule-independent fact at the end: per key, the deltas sent add up to the increments made.
+fn lookup_one(rng: &mut rand::rngs::StdRng) -> Value {
+    use std::sync::atomic::{AtomicBool, Ordering::SeqCst};
+    use std::time::{Duration, Instant};
+    let cfg = StateConfiguration {
+        agg_mode: AggregationMode::Conservative,
+        telemetry: false,
+        histogram_sampling: false,
+        histogram_reservoir_size: 8,
+        histograms_as_distributions: false,
+        global_labels: vec![],
+        global_prefix: None,
+    };
+    let mut driver = Driver::new(cfg, 8192, false);
+    const NK: usize = 32;
+    let names: Vec<String> = (0..NK).map(|i| format!("lk{i}")).collect();
+    let stop = std::sync::Arc::new(AtomicBool::new(false));
+    let nthreads = 6;
+    let mut hs = vec![];
+    for t in 0..nthreads {
+        let rec = driver.recorder();
+        let (stop, names) = (stop.clone(), names.clone());
+        let mut r = vh::rng(rng.random::<u64>() ^ t as u64);
+        hs.push(std::thread::spawn(move || {
+            let md = Metadata::new("t", Level::INFO, None);
+            let mut made = vec![0i64; NK];
+            while !stop.load(SeqCst) {
+                let k = r.random_range(0..NK);
+                rec.register_counter(&Key::from_name(names[k].clone()), &md).increment(1);
+                made[k] += 1;
+                match r.random_range(0..10) {
+                    0..=3 => std::thread::sleep(Duration::from_micros(r.random_range(100..1500))),
+                    4 | 5 => std::thread::yield_now(),
+                    _ => {}
+                }
+            }
+            made
+        }));
+    }
+    let mut sent = vec![0i64; NK];
+    let mut bad = 0i64;
+    let mut flushes = 0i64;
+    let absorb = |payloads: Vec<Vec<u8>>, sent: &mut Vec<i64>, bad: &mut i64| {
+        for p in &payloads {
+            for line in String::from_utf8_lossy(p).lines() {
+                let first = line.split('|').next().unwrap_or("");
+                match first.split_once(':') {
+                    Some((n, v)) => match (n.strip_prefix("lk").and_then(|x| x.parse::<usize>().ok()), v.parse::<i64>()) {
+                        (Some(k), Ok(x)) if k < NK && line.contains("|c") => sent[k] += x,
+                        _ => *bad += 1,
+                    },
+                    None => *bad += 1,
+                }
+            }
+        }
+    };
+    let t0 = Instant::now();
+    while t0.elapsed() < Duration::from_millis(1500) {
+        absorb(driver.flush_once(), &mut sent, &mut bad);
+        flushes += 1;
+        std::thread::sleep(Duration::from_micros(150));
+    }
+    stop.store(true, SeqCst);
+    let mut made = vec![0i64; NK];
+    for h in hs {
+        if let Ok(m) = h.join() {
+            for k in 0..NK {
+                made[k] += m[k];
+            }
+        }
+    }
+    for _ in 0..3 {
+        absorb(driver.flush_once(), &mut sent, &mut bad);
+        flushes += 1;
+    }
+    json!({"p": 0, "ev": "lookup", "a": [nthreads, flushes, bad], "made": made, "sent": sent})
+}
+
 fn sampled_one(rng: &mut rand::rngs::StdRng) -> Value {
     let cap = [1usize, 2, 3, 4, 8][rng.random_range(0..5)];
     let cfg = StateConfiguration {
@@ -1084,6 +1164,14 @@ fn main() {
                 for e in fwd_one(&mut rng, i, &dir) {
                     w.put(&e);
                 }
+            }
+            summary["runs"] = json!(runs);
+        }
+        "lookup" => {
+            let runs: usize = args.num("runs", 3);
+            for _ in 0..runs {
+                let e = lookup_one(&mut rng);
+                w.put(&e);
             }
             summary["runs"] = json!(runs);
         }
